@@ -236,7 +236,9 @@ func c15Widget(name string) *unstructured.Unstructured {
 		"backends": []interface{}{map[string]interface{}{"name": c15Stable, "weight": int64(verifrt.IntRange("obj.weight", 0, 100))}},
 	}
 	if verifrt.Bool("obj.hasNested") {
-		spec["nested"] = map[string]interface{}{"deep": map[string]interface{}{"flag": verifrt.Bool("obj.flag"), "list": []interface{}{verifrt.String("obj.item")}}}
+		spec["nested"] = map[string]interface{}{"deep": map[string]interface{}{"flag": verifrt.Bool("obj.flag"), "list": []interface{}{verifrt.String("obj.item")}},
+			// a number that is not an integer (fault percentages, mirror percentages): it goes through Lua and back unchanged
+			"ratio": float64(12.5)}
 	}
 	return &unstructured.Unstructured{Object: map[string]interface{}{
 		"apiVersion": "demo.verif.io/v1", "kind": "Widget", "metadata": meta, "spec": spec}}
